@@ -250,7 +250,49 @@ fn admissible_setting(c: &SCase, style: LenStyle) -> bool {
     }
 }
 
+/// the reported cost of every route edge is the cost under the objective in force for the query:
+/// weights, vehicle rates and aggregation as the harness derived them independently from the query
+/// (when it overrides them) or else from the configuration — sum aggregation only
+fn oracle_c02_objective(ctx: &mut Ctx, idx: usize, c: &SCase, b: &Built, r: &SearchAlgorithmResult) {
+    if c.agg_mul {
+        return;
+    }
+    let init: Vec<f64> = match b.si.state_model.initial_state() {
+        Ok(s) => s.iter().map(|x| x.0).collect(),
+        Err(_) => return,
+    };
+    for route in &r.routes {
+        let (lo, hi) = if c.edge_oriented && route.len() >= 2 && !(c.target.is_some() && c.edges[c.source].1 == c.edges[c.target.unwrap()].0) {
+            (1, if c.target.is_some() { route.len() - 1 } else { route.len() })
+        } else {
+            (0, route.len())
+        };
+        let mut prev = init.clone();
+        for et in &route[lo..hi] {
+            let st: Vec<f64> = et.result_state.iter().map(|x| x.0).collect();
+            if st.len() != prev.len() {
+                break;
+            }
+            let e = et.edge_id.0;
+            let mut sum = 0.0;
+            let mut mag = 0.0;
+            for i in 0..prev.len() {
+                let v = map_rate(&b.cost_vrates[i], st[i] - prev[i]) * b.cost_weights[i];
+                let n = net_rate(&b.cost_nrates[i], e) * b.cost_weights[i];
+                sum += v + n;
+                mag += v.abs() + n.abs();
+            }
+            let total = et.total_cost().as_f64();
+            if sum > 1e-9 * mag + 1e-9 && !close(total, sum, 1e-9, 1e-9 * mag + 1e-12) {
+                ctx.fail(idx, "cost/not-under-query-objective", format!("edge {}: charged {} but the weights and rates in force give {}", e, total, sum));
+            }
+            prev = st;
+        }
+    }
+}
+
 fn oracle_c02(ctx: &mut Ctx, idx: usize, c: &SCase, b: &Built, r: &SearchAlgorithmResult, style: LenStyle) {
+    oracle_c02_objective(ctx, idx, c, b, r);
     let src = inner_source(c);
     let Some(dist) = bellman_ford(c, b, src) else { return };
     if !admissible_setting(c, style) {
